@@ -134,3 +134,44 @@ class Tree_delete_one:
 view("xandikos.store.git.TreeGitStore", "ghost_locked", "tree_locked_view")
 
 view("xandikos.store.git.TreeGitStore", "ghost_trees", "trees_view")
+
+
+view("xandikos.store.git.TreeGitStore", "ghost_cfg", "tree_cfg_view")
+
+
+@contract("xandikos.store.git.TreeGitStore._import_one", variant="metadata", when={"name": ".xandikos"},
+          params={"self": "obj:xandikos.store.git.TreeGitStore", "name": "str", "data": "opaque:Chunks",
+                  "message": "str", "author": "opt[str]"},
+          returns="bytes", modifies=["self.repo", "fs()"])
+class Tree_import_one_metadata:
+    """C15 (persist step of the versioned metadata file), C04 (same write order as a member)."""
+
+    def requires(self, name):
+        return (rep_tree(self.repo) and name == ".xandikos"
+                and name not in fs_subdirs(self.repo.path))
+
+    def raises_LockedError(self):
+        return repo_locked(self.repo)
+
+    def ensures(self, name, data, result):
+        return (result == blob_id(data)
+                and repo_has(self.repo, result)
+                and self.ghost_cfg == result.decode("ascii")
+                and self.ghost_M == old(self.ghost_M))
+
+    def ensures_history(self, name, data, result):
+        changed = old(self.ghost_cfg) != result.decode("ascii")
+        return (rep_tree(self.repo)
+                and not repo_locked(self.repo)
+                and forall("bytes", lambda o: implies(o in old(repo_objects(self.repo)), o in repo_objects(self.repo)))
+                and implies(not changed, repo_head(self.repo) == old(repo_head(self.repo))
+                            and repo_ncommits(self.repo) == old(repo_ncommits(self.repo)))
+                and implies(changed, repo_ncommits(self.repo) == old(repo_ncommits(self.repo)) + 1
+                            and commit_parent(repo_head(self.repo)) == old(repo_head(self.repo))))
+
+    def ensures_order(self, name, data, result):
+        changed = old(self.ghost_cfg) != result.decode("ascii")
+        return (implies(changed, effect_names() == ["Acquire", "ReadIndex", "WriteFile", "AddObject", "AddObject",
+                                                    "Commit", "WriteIndex", "Release"])
+                and implies(not changed, effect_names() == ["Acquire", "ReadIndex", "WriteFile", "WriteIndex",
+                                                            "Release"]))
